@@ -106,10 +106,10 @@ func (e *Exec) callFn(fn *ssa.Function, args []Value, bindings []Value, c *ssa.C
 		return v
 	}
 	if e.shouldExecute(fn) {
+		if fn.Pkg != nil {
+			fn.Pkg.Build() // idempotent; blocks until a concurrent build has finished
+		}
 		if fn.Blocks == nil {
-			if fn.Pkg != nil {
-				fn.Pkg.Build()
-			}
 			if fn.Blocks == nil {
 				panic(engineErr("function %s has no body (external/asm)", name))
 			}
@@ -221,6 +221,10 @@ func (e *Exec) builtin(name string, c *ssa.CallCommon, args []Value, fr *frame) 
 		return Iface{}
 	case "print", "println":
 		return nil
+	case "ssa:deferstack":
+		// the current function's defer stack (only distinguished from "nil" by range-over-func bodies,
+		// which are not supported): defers are always pushed on the executing frame
+		return Opaque{Kind: "deferstack"}
 	case "ssa:wrapnilchk":
 		if p, ok := args[0].(Ptr); ok && p.Obj == nil {
 			e.goPanicf("value method called using nil pointer")
@@ -558,6 +562,11 @@ func (e *Exec) markPre(v Value, name string, depth int) {
 		return
 	}
 	switch x := v.(type) {
+	case *MapObj:
+		if x != nil {
+			x.Pre = true
+			x.Name = name + " (map)"
+		}
 	case Bytes:
 		if x.Buf != nil {
 			x.Buf.Pre = true
